@@ -108,20 +108,36 @@ def analyse(ck):
 
     # ------------------------------------------------------------------ bytes_digest_eq, limb accessors
     fr, b = gframe(ck, "bytes_digest_eq", ev)
-    rt = P.norm(fr.return_term())
-    lv = [P.norm(z) for z in _and_leaves(rt)]
+    from . import lc
+    rt = P.norm(lc.canon(fr.return_term()))
+    # conjunction leaves: an and-tree (any association, `_true` is the unit) and/or a fold {true, and(acc, leaf(k))} over k in 0..4
+    lv = []
+    for z in _and_leaves(rt):
+        z = P.norm(z)
+        if P.const_of(z) == 1:
+            continue
+        if isinstance(z, tuple) and z and z[0] == "phi" and len(z[2]) == 2 and any(P.const_of(m_) == 1 for m_ in z[2]):
+            step = [m_ for m_ in z[2] if P.const_of(m_) != 1][0]
+            sl = [P.norm(x) for x in _and_leaves(step)]
+            rec = [x for x in sl if isinstance(x, tuple) and x and x[0] in ("rec", "phi")]
+            if len(rec) == 1:
+                lv += [("forall", x) for x in sl if x is not rec[0]]
+                continue
+        lv.append(z)
     pairs = set()
-    okb = len(lv) == 4
+    okb = bool(lv)
     for z in lv:
-        a = P.cb_args(z, "cb.is_equal")
+        quant = isinstance(z, tuple) and z and z[0] == "forall"
+        a = P.cb_args(z[1] if quant else z, "cb.is_equal")
         if a is None:
             okb = False
             continue
         u, w = P.norm(a[0]), P.norm(a[1])
-        if u[0] == "idx" and w[0] == "idx" and {u[1], w[1]} == {param(b, 2), param(b, 3)} and u[2] == w[2] and T.is_const(u[2]):
-            pairs.add(u[2][1])
+        if u[0] == "idx" and w[0] == "idx" and {u[1], w[1]} == {param(b, 2), param(b, 3)} and u[2] == w[2] and (T.is_const(u[2]) and not quant or quant and lc.is_var(u[2], 0, 4)):
+            pairs |= {0, 1, 2, 3} if quant else {u[2][1]}
         else:
             okb = False
+    okb = okb and (len(lv) == 4 or any(isinstance(z, tuple) and z[0] == "forall" for z in lv) and len(lv) == 1)
     ob.add({"C10", "C07", "C13"}, okb and pairs == {0, 1, 2, 3}, "TERM", "gadget/bytes_digest_eq", "bytes_digest_eq(a, c) = AND over k in 0..4 of is_equal(a[k], c[k]) (matching limb indices, no free wire)",
            "%s:%s" % (b.file, b.line), T.show(rt)[:300])
     for nm_, w in (("limbs4_at_offset", 4), ("limb1_at_offset", 1)):
